@@ -202,6 +202,45 @@ theorem C12_result_is_final (N : Nat) (before after : List Ev) (hf : FreshRun2 (
   obtain ⟨o', ho', hk⟩ := resKeep_run after _ hp hu ha hr hf2 i o ho
   exact ⟨o', ho', by rw [hk (by rw [hres]; rfl), hres]⟩
 
+/-! ### the whole-history theorems without a schedule hypothesis
+
+`FreshRun2` (finding F13) holds for every history with at most `N` (= 2^31-1) allocations
+(`freshRun2_init`, Lemmas/ConnNoWrap.lean). -/
+
+/-- `C12_timed_out_holds_no_routing_state` for every history with at most `N` allocations -/
+theorem C12_timed_out_holds_no_routing_state_nowrap (N : Nat) (evs : List Ev) (hcount : allocCount evs ≤ N) (i : Nat) (o : Op)
+    (ho : (run (init N) evs).ops[i]? = some o) (hto : o.res = some .timeout)
+    (hscrubbed : o.id ∉ (run (init N) evs).scrubQ) :
+    (∀ p ∈ (run (init N) evs).resultmap, p.2 ≠ i) ∧
+    (∀ p ∈ (run (init N) evs).searchmap, o.chan ≠ some p.2) ∧
+    (o.id ∈ (run (init N) evs).inUse → i ∉ (run (init N) evs).opQ → o.kind ≠ .unbind →
+      ∃ (j : Nat) (oj : Op), j ≠ i ∧ (run (init N) evs).ops[j]? = some oj ∧ oj.id = o.id ∧ Reg (run (init N) evs) j oj) :=
+  C12_timed_out_holds_no_routing_state N evs (freshRun2_init N evs hcount) i o ho hto hscrubbed
+
+/-- `C12_reply_under_unreserved_id_is_dropped` for every history with at most `N` allocations -/
+theorem C12_reply_under_unreserved_id_is_dropped_nowrap (N : Nat) (evs : List Ev) (hcount : allocCount evs ≤ N) (k : Nat) (f : Frame)
+    (hfree : k ∉ (run (init N) evs).inUse)
+    (hd : (run (init N) evs).drv = .running) (hnext : (run (init N) evs).srvLog[(run (init N) evs).pos]? = some f)
+    (hid : f.id = (k : Int)) :
+    step (run (init N) evs) .drvResp = some ({ run (init N) evs with pos := (run (init N) evs).pos + 1 }, .none) :=
+  C12_reply_under_unreserved_id_is_dropped N evs (freshRun2_init N evs hcount) k f hfree hd hnext hid
+
+/-- `C12_late_reply_is_dropped` for every history with at most `N` allocations -/
+theorem C12_late_reply_is_dropped_nowrap (N : Nat) (evs : List Ev) (hcount : allocCount evs ≤ N) (i : Nat) (o : Op) (f : Frame)
+    (ho : (run (init N) evs).ops[i]? = some o) (hto : o.res = some .timeout)
+    (hnotreused : o.id ∉ (run (init N) evs).inUse)
+    (hd : (run (init N) evs).drv = .running) (hnext : (run (init N) evs).srvLog[(run (init N) evs).pos]? = some f)
+    (hid : f.id = (o.id : Int)) :
+    step (run (init N) evs) .drvResp = some ({ run (init N) evs with pos := (run (init N) evs).pos + 1 }, .none) :=
+  C12_late_reply_is_dropped N evs (freshRun2_init N evs hcount) i o f ho hto hnotreused hd hnext hid
+
+/-- `C12_result_is_final` for every history with at most `N` allocations -/
+theorem C12_result_is_final_nowrap (N : Nat) (before after : List Ev) (hcount : allocCount (before ++ after) ≤ N)
+    (i : Nat) (o : Op) (r : Res)
+    (ho : (run (init N) before).ops[i]? = some o) (hres : o.res = some r) :
+    ∃ o' : Op, (run (init N) (before ++ after)).ops[i]? = some o' ∧ o'.res = some r :=
+  C12_result_is_final N before after (freshRun2_init N _ hcount) i o r ho hres
+
 /-! ### non-vacuity (tests): reply one tick before, at, and after the deadline -/
 def tScript (replyAt : Nat) : List Ev :=
   [.alloc .single, .enqueue 0 (some 10), .drvOp true] ++
@@ -212,5 +251,29 @@ example : ((run (init 100) (tScript 9)).ops.map (·.res)) = [some (.frame ⟨1, 
 example : ((run (init 100) (tScript 10)).ops.map (·.res)) = [some (.frame ⟨1, 11, 5, true⟩)] := by decide
 example : ((run (init 100) (tScript 11)).ops.map (·.res)) = [some .timeout] ∧
     ((run (init 100) (tScript 11)).ops.map (·.mail)) = [.dropped] ∧ (run (init 100) (tScript 11)).inUse = [] := by decide
+
+/-- hypotheses of `C12_timed_out_holds_no_routing_state_nowrap`: op 0 timed out and its scrub has been handled -/
+example :
+    let s := run (init 100) (tScript 11)
+    allocCount (tScript 11) ≤ 100 ∧ (s.ops[0]?.map fun o => (o.res, decide (o.id ∈ s.scrubQ))) = some (some .timeout, false) := by decide
+
+/-- hypotheses of `C12_reply_under_unreserved_id_is_dropped_nowrap` / `C12_late_reply_is_dropped_nowrap`: the late
+reply to the timed-out, scrubbed operation is the driver's next frame -/
+def lateReplyHistory : List Ev :=
+  [.alloc .single, .enqueue 0 (some 10), .drvOp true, .tick 10, .poll 0, .drvScrub, .tick 1, .srvSend ⟨1, 11, 5, true⟩]
+
+example :
+    let s := run (init 100) lateReplyHistory
+    allocCount lateReplyHistory ≤ 100 ∧ 1 ∉ s.inUse ∧ s.drv = .running ∧ s.srvLog[s.pos]? = some ⟨1, 11, 5, true⟩ ∧
+    (s.ops[0]?.map fun o => (o.res, o.id)) = some (some .timeout, 1) := by decide
+
+/-- hypotheses of `C12_result_is_final_nowrap`: the time-out has been returned; scrub, late reply and a
+further answered operation follow -/
+example :
+    let before : List Ev := [.alloc .single, .enqueue 0 (some 10), .drvOp true, .tick 10, .poll 0]
+    let after : List Ev := [.drvScrub, .srvSend ⟨1, 11, 5, true⟩, .drvResp, .alloc .single, .enqueue 1 none, .drvOp true,
+      .srvSend ⟨2, 11, 6, true⟩, .drvResp, .poll 1]
+    allocCount (before ++ after) ≤ 100 ∧ ((run (init 100) before).ops[0]?.map (·.res)) = some (some .timeout) ∧
+    (run (init 100) (before ++ after)).ops.map (·.res) = [some .timeout, some (.frame ⟨2, 11, 6, true⟩)] := by decide
 
 end Ldap3V.Conn
